@@ -416,7 +416,17 @@ class Inliner:
                     b1, r1 = tr(list(st.body))
                     b2, r2 = tr(list(st.orelse))
                     if (not r1 and has_return(st.body)) or (not r2 and has_return(st.orelse)):
-                        raise CannotInline('a return on part of the paths of a branch')
+                        # a return on part of the paths of a branch: what follows the `if` is read at the end of each
+                        # arm (so that every path of the arm either returns or runs it), for small helpers
+                        rest_src = list(stmts[k + 1:])
+                        if sum(1 for r_ in rest_src for _ in ast.walk(r_) if isinstance(_, ast.stmt)) > 12:
+                            raise CannotInline('a return on part of the paths of a branch')
+                        b1, r1 = tr(list(st.body) + copy.deepcopy(rest_src))
+                        b2, r2 = tr(list(st.orelse) + copy.deepcopy(rest_src))
+                        if (not r1 and has_return(b1)) or (not r2 and has_return(b2)):
+                            raise CannotInline('a return on part of the paths of a branch')
+                        out.append(ast.If(test=st.test, body=b1 or [ast.Pass()], orelse=b2))
+                        return out, r1 and r2
                     if r1 and r2:
                         out.append(ast.If(test=st.test, body=b1 or [ast.Pass()], orelse=b2))
                         return out, True
